@@ -297,7 +297,7 @@ pub fn strategy() -> BoxedStrategy<Case> {
         prop_oneof![
             2 => prop::sample::select(vec![0.0, 50.0, 100.0, 25.0, 75.0, 99.9, 0.1, 33.333333333333336]),
             2 => (0u32..=1000).prop_map(|i| i as f64 / 10.0),
-            1 => (0.0f64..=100.0),
+            1 => 0.0f64..=100.0,
         ]
     };
     (
